@@ -48,7 +48,7 @@ type Case struct {
 
 type EpKey struct{ A, E int }
 
-func (m *Model) Ep(k EpKey) *Ep       { return m.Apps[k.A].Eps[k.E] }
+func (m *Model) Ep(k EpKey) *Ep         { return m.Apps[k.A].Eps[k.E] }
 func (m *Model) KeyName(k EpKey) string { return m.Apps[k.A].Name + " <- " + m.Apps[k.A].Eps[k.E].Name }
 
 func (m *Model) AllEps() []EpKey {
